@@ -204,6 +204,7 @@ func (e *Exec) runPar(c *Cmd, body []*Cmd, out *bufio.Writer) {
 		k, _ = strconv.Atoi(c.Pos[0])
 	}
 	rounds := c.num("rounds", 1)
+	ordered := c.str("ordered", "0") == "1"
 	results := make([][]string, k)
 	var wg sync.WaitGroup
 	for g := 0; g < k; g++ {
@@ -217,6 +218,9 @@ func (e *Exec) runPar(c *Cmd, body []*Cmd, out *bufio.Writer) {
 				// calls overlap in time
 				for n := 0; n < len(body); n++ {
 					idx := (n + g*7) % len(body)
+					if ordered {
+						idx = n
+					}
 					obs, ok := e.safeExec(body[idx], sl, fmt.Sprintf("_g%d", g))
 					if ok {
 						res[idx] = obs
